@@ -13,6 +13,7 @@
 
 /* member names: plain ones, and names whose escaped spelling ("~0", "~1") is itself the name of, or decodes in the wrong
  * order to, another member ("~1" <-> "/", "~01" <-> "~1", "~" <-> "~0") */
+extern json_object *c09_twin_h(json_object *o);
 static const char *keys[] = {"a", "b", "c", "a/b", "m~n", "", "0", "-", "x", "~1", "/", "~", "~0", "~01", "x~1y", "1"};
 #define NKEYS 16
 
@@ -409,6 +410,14 @@ static int drive(int start, int nexec)
 		do
 			doc = gen_val(3);
 		while (!doc || (json_object_get_type(doc) != json_type_object && json_object_get_type(doc) != json_type_array));
+		if (x % 3 == 2)
+		{
+			/* the same document with every node reached through a history (deleted members, grown tables, trimmed arrays,
+			 * strings grown / shrunk by set): a patch acts on the value, whatever the nodes went through */
+			json_object *h = c09_twin_h(doc);
+			json_object_put(doc);
+			doc = h;
+		}
 		for (int k = 0; k < 6; k++)
 		{
 			json_object *patch = (k < 4) ? gen_patch(doc, 1 + (int)vh_below(k < 2 ? 2 : 8)) : gen_bad_patch(doc);
